@@ -320,7 +320,7 @@ open IwModel
 
 theorem wf_increment (t v : Node) (h : WF t) : WF (increment t v).1 := by
   unfold increment
-  cases v <;> cases t <;> first | exact h | exact WF.int _ | exact WF.f64 _
+  cases v <;> cases t <;> first | exact h | exact WF.int _ | exact WF.f64 _ | (dsimp only; split <;> first | exact h | exact WF.int _)
 
 /-- inserting at a position: the new element gets the position, everything behind moves up by one -/
 theorem wf_insertPlain (parent : Node) (last : Bytes) (op : OpK) (v : Node) (h : WF parent) (hv : WF v) :
